@@ -19,7 +19,7 @@ RLIMIT_RETRY = 80    # second attempt for a failed baseline obligation
 # property -> units (order = layering, bottom first)
 PROPERTY_UNITS = {
     "C06": ["bdd_ops", "dnf", "proper_subtype", "semtype_ops"],
-    "C04": ["bdd_ops", "dnf", "proper_subtype", "semtype_ops", "to_schema", "list_shape", "mapping_dnf"],
+    "C04": ["bdd_ops", "dnf", "proper_subtype", "semtype_ops", "to_schema", "list_shape", "mapping_dnf", "access"],
     "C05": ["semtype_ops", "list_shape", "mapping_dnf"],
     "C07": ["dnf", "to_schema"],
 }
